@@ -24,6 +24,7 @@ from hypothesis import strategies as st
 
 from vlib import confmodel as cm
 from vlib import simconf
+from vlib import wire
 from vlib.harness import Watch, bootstrapped_pipe
 from vlib.runner import HarnessError, Result
 
@@ -126,7 +127,7 @@ def _local_value(o):
 
 
 @st.composite
-def cases(draw, max_steps=12):
+def cases(draw, max_steps=9):
     opts = draw(cm.option_tables("c11", min_size=2, max_size=7))
     if draw(st.integers(0, 2)) and not any(o["name"] == "SocksPort" for o in opts):
         opts.insert(draw(st.integers(0, len(opts))), draw(cm.option_record("SocksPort", "c11")))
@@ -141,9 +142,54 @@ def cases(draw, max_steps=12):
         return {"op": "event", "changes": [[o["name"], draw(_new_value(o))] for o in targets]}
 
     @st.composite
+    def assign(draw, o, op="assign"):
+        if simconf.is_list_type(o["type"]):
+            v = draw(st.lists(_elements(o["type"]), min_size=1, max_size=3))
+        else:
+            v = draw(cm.assign_values(o["type"]))
+        return {"op": op, "o": o["name"], "v": v, "case": draw(spell)}
+
+    @st.composite
+    def chunk(draw):
+        """One step, or a local change that is still pending (or was refused) when Tor announces a
+        change of the same option by another controller."""
+        if draw(st.integers(0, 3)):
+            return [draw(step())]
+        o = draw(st.sampled_from(opts))
+        if simconf.is_list_type(o["type"]) and draw(st.booleans()):
+            seq = [{"op": "edit", "o": o["name"], "v": draw(_elements(o["type"])), "case": draw(spell)}]
+        else:
+            seq = [draw(assign(o))]
+        if draw(st.integers(0, 2)) == 0:
+            seq.append({"op": "save", "accept": False})
+        changes = [[o["name"], draw(_new_value(o))]]
+        if draw(st.integers(0, 2)) == 0:
+            other = draw(st.sampled_from(opts))
+            if other["name"] != o["name"]:
+                changes.insert(draw(st.integers(0, 1)), [other["name"], draw(_new_value(other))])
+        seq.append({"op": "event", "changes": changes})
+        seq.append({"op": "read", "o": o["name"], "case": draw(spell)})
+        tail = draw(st.sampled_from(["save", "save", "refused", "nothing", "event"]))
+        if tail == "save":
+            seq.append({"op": "save", "accept": True})
+        elif tail == "refused":
+            seq += [{"op": "save", "accept": False}, {"op": "event", "changes": [[o["name"], draw(_new_value(o))]]}]
+        elif tail == "event":
+            seq.append({"op": "event", "changes": [[o["name"], draw(_new_value(o))]]})
+        return seq
+
+    @st.composite
     def step(draw):
         kind = draw(st.sampled_from(["event_list"] * 4 + ["event"] * 2 + ["event_mb"] + ["edit_save"] * 5 +
-                                    ["assign_save"] * 2 + ["read"] * 2 + ["socks"] * 2))
+                                    ["assign_save"] * 2 + ["read"] * 2 + ["socks"] * 2 +
+                                    ["edit", "assign", "save", "save"]))
+        if kind == "save":
+            return {"op": "save", "accept": draw(st.sampled_from([True, True, False]))}
+        if kind == "edit":
+            o = draw(st.sampled_from(lists))
+            return {"op": "edit", "o": o["name"], "v": draw(_elements(o["type"])), "case": draw(spell)}
+        if kind == "assign":
+            return draw(assign(draw(st.sampled_from(opts))))
         if kind == "event_mb" and not (multis and unsettable):
             kind = "event_list"
         if kind == "event_mb":
@@ -176,10 +222,17 @@ def cases(draw, max_steps=12):
         n = min(draw(st.sampled_from([0, 1, 1, 2, 2, 3])), len(opts))
         targets = draw(st.lists(st.sampled_from(opts), min_size=n, max_size=n, unique_by=lambda o: o["name"]))
         attach = [{"o": o["name"], "case": draw(st.integers(0, 3)), "v": draw(_local_value(o))} for o in targets]
-    return {"opts": opts, "attach": attach, "defaults": draw(st.sampled_from([True, True, False])),
+    boot_events = []
+    if draw(st.integers(0, 2)) == 0:
+        boot_events = draw(st.lists(st.builds(lambda at, ev: {"at": at, "changes": ev["changes"]},
+                                              st.integers(1, len(opts) + 7), event(opts)),
+                                    min_size=1, max_size=3))
+    chunks = draw(st.lists(chunk(), min_size=1, max_size=max_steps))
+    return {"opts": opts, "attach": attach, "boot_events": boot_events,
+            "defaults": draw(st.sampled_from([True, True, False])),
             "dep": draw(st.sampled_from(["Dependent", "Dependent", "Dependant"])),
             "echo": draw(st.booleans()),
-            "steps": draw(st.lists(step(), min_size=1, max_size=max_steps))}
+            "steps": [s for c in chunks for s in c][:3 * max_steps]}
 
 
 # --------------------------------------------------------------------------- driver
@@ -200,10 +253,13 @@ class _Opt(object):
         self.typ = rec["type"]
         self.is_list = simconf.is_list_type(self.typ)
         self.rec = rec
-        self.want = None
+        self.want = None                # the running value: what Tor holds, as the view should show it
+        self.alts = []                  # other acceptable reads: local pending values since the last event about it
+        self.pend = None                # unsaved local change: {"kind", "vals", "view", "clobbered", "refused"}
         self.unsure = False
         self.origin = "bootstrap"       # what last determined the value: bootstrap | event | save
         self.event_info = None          # details of the last event about it (for tagging)
+        self.boot_changed = None        # changed by an event during bootstrap: "before-fetch" | "after-fetch"
 
 
 class _Run(object):
@@ -213,13 +269,23 @@ class _Run(object):
         self.case = case
         self.sim = simconf.SimConf(case["opts"], defaults_supported=case.get("defaults", True),
                                    echo=case.get("echo", False), dependent_word=case.get("dep", "Dependent"))
-        self.pipe, self.srv = bootstrapped_pipe(self.sim.handler)
+        self.stepping = False
+        self.waiting = []
+        self.pipe, self.srv = bootstrapped_pipe(self._handler)
         self.pre = {}               # option name -> local pre-assignment (attach route)
         self.attach = case.get("attach") is not None
+        self.opts = {}
+        for o in case["opts"]:
+            m = _Opt(o)
+            m.want = cm.initial_view(self.sim, m.name)
+            self.opts[m.name] = m
+        self.dead = False
+        self.tracked_after_event = 0
+        self.pending_event_checked = 0
+        self.late_boot_events = []
+        boot_events = list(case.get("boot_events") or [])
         if not self.attach:
-            w = Watch(TorConfig.from_protocol(self.pipe.proto))
-            self.pipe.pump()
-            self.cfg = w.result if w.succeeded else None
+            start = lambda: Watch(TorConfig.from_protocol(self.pipe.proto))
         else:
             # what launch() does: a protocol-less TorConfig, filled in, then attach_protocol()
             cfg = TorConfig()
@@ -229,21 +295,94 @@ class _Run(object):
                 self.pre[a["o"]] = a
                 v = a["v"]
                 setattr(cfg, cm.mangle(a["o"], a["case"]), list(v) if isinstance(v, list) else v)
-            w = Watch(cfg.attach_protocol(self.pipe.proto))
+            start = lambda: Watch(cfg.attach_protocol(self.pipe.proto))
+        if boot_events:
+            w = self._start_stepwise(start, boot_events)
+        else:
+            w = start()
             self.pipe.pump()
+        if not self.attach:
+            self.cfg = w.result if w.succeeded else None
+        else:
             self.cfg = cfg if w.succeeded else None
         self.boot = w
-        self.opts = {}
-        for o in case["opts"]:
-            m = _Opt(o)
-            m.want = cm.initial_view(self.sim, m.name)
-            self.opts[m.name] = m
-        self.dead = False
-        self.tracked_after_event = 0
+
+    # ---- the reference Tor, optionally answering one command at a time
+    def _handler(self, line):
+        if self.stepping:
+            self.waiting.append(line)
+            return None
+        return self.sim.handler(line)
+
+    def _answer(self, line):
+        r = self.sim.handler(line)
+        if r is NotImplemented:
+            r = self.srv.builtin(line)
+        return r if isinstance(r, bytes) else wire.encode_reply(r)
+
+    def _start_stepwise(self, start, boot_events):
+        """Run the attach with Tor's answers delivered one command at a time; the event
+        {"at": k, ...} is emitted by Tor just before it answers the k-th command of the attach
+        (never before the SETEVENTS that subscribes to CONF_CHANGED has been answered)."""
+        self.stepping = True
+        self.pipe.auto = False
+        w = start()
+        self.pipe.pump()
+        queue = sorted(boot_events, key=lambda e: e["at"])
+        subscribed = False
+        fetched = set()
+        idx = 0
+        while self.waiting and idx < 400:
+            line = self.waiting.pop(0)
+            verb, _, rest = line.partition(" ")
+            if subscribed:
+                while queue and queue[0]["at"] <= idx:
+                    self._boot_event(queue.pop(0), fetched)
+            self.pipe.produce(self._answer(line))
+            if verb.upper() == "SETEVENTS" and "CONF_CHANGED" in rest.split():
+                subscribed = True
+            if verb.upper() == "GETCONF":
+                for asked in rest.split():
+                    c = self.sim.canonical(asked[2:] if asked.startswith("__") else asked)
+                    if c is not None:
+                        fetched.add(c)
+            self.pipe.deliver(None)
+            idx += 1
+        self.stepping = False
+        self.pipe.auto = True
+        self.pipe.pump()
+        self.late_boot_events = queue           # scheduled after the attach had finished: ordinary events
+        if self.pipe.escaped:
+            self.res.bad("event-handler-raised", "%r while attaching" % (self.pipe.escaped[0],))
+            self.dead = True
+        return w
+
+    def _boot_event(self, e, fetched):
+        names = []
+        for name, value in e["changes"]:
+            m = self.opts[name]
+            if value is None and m.typ not in ("String", "Filename", "LineList"):
+                raise HarnessError("case unsets %s (%s) by event" % (name, m.typ))
+            if self.sim.get(name) == value:
+                continue
+            self.sim.set(name, value)
+            names.append(name)
+        if not names:
+            return
+        self.pipe.produce(self.sim.conf_changed(names))
+        for name in names:
+            m = self.opts[name]
+            m.want = cm.initial_view(self.sim, name)
+            when = "after-fetch" if name in fetched else "before-fetch"
+            if m.boot_changed != "after-fetch":
+                m.boot_changed = when
+            self.res.label("event-while-attaching:%s-its-GETCONF" % ("after" if name in fetched else "before"))
 
     # ---- classification of a wrong read
     def _tag(self, m, got):
         rec = m.rec
+        if m.origin == "bootstrap" and m.boot_changed == "after-fetch":
+            return "event-during-attach-overwritten-by-earlier-answer"
         if m.origin == "bootstrap" and m.name in self.pre:
             a = self.pre[m.name]
             local = a["v"]
@@ -253,20 +392,19 @@ class _Run(object):
             if rec["value"] is None and self.sim.default(m.name) is not None and cm.mangle(m.name, a["case"]) != m.name:
                 return "attach-default-not-found-under-local-spelling"
         if m.origin == "bootstrap":
-            if m.is_list and rec["value"] is None:
+            if m.is_list and rec["value"] is None and m.boot_changed is None:
                 d = self.sim.default(m.name)
                 if d is not None and len(d) == 1 and isinstance(got, list) and list(got) == list(d[0]) and len(d[0]) > 1:
                     return "bootstrap-one-line-default-split-into-characters"
                 if isinstance(got, list) and list(got) == ["DEFAULT"]:
                     return "bootstrap-unset-list-shows-DEFAULT"
-            if m.typ == "PortLines" and rec["value"] and len(rec["value"]) > 1 and isinstance(got, list) \
-                    and len(got) == 1 and isinstance(got[0], list):
-                return "bootstrap-multi-valued-port-option-nested"
             if m.typ == "PortLines" and isinstance(got, list) and any(isinstance(x, list) for x in got):
                 return "bootstrap-multi-valued-port-option-nested"
             return "bootstrap-view-wrong"
         if m.origin == "event":
             info = m.event_info or {}
+            if m.pend is not None:
+                return "event-ignored-for-option-with-pending-local-change"
             if m.is_list and not isinstance(got, list):
                 return "event-list-option-becomes-" + type(got).__name__
             if m.is_list and list(got) == ["DEFAULT"]:
@@ -276,6 +414,9 @@ class _Run(object):
                 return "event-multi-valued-key-before-bare-key-truncated"
             return "event-view-wrong"
         return "view-wrong-after-save"
+
+    def acceptable(self, m, got):
+        return cm.same_view(m.typ, m.want, got) or any(cm.same_view(m.typ, a, got) for a in m.alts)
 
     def check_all(self, when, spellings=(0,)):
         for m in self.opts.values():
@@ -289,9 +430,11 @@ class _Run(object):
                     self.res.bad("read-raised", "%s after %s: %r" % (nm, when, e))
                     self.dead = True
                     return
-                if not cm.same_view(m.typ, m.want, got):
-                    self.res.bad(self._tag(m, got), "%s (%s) reads %r after %s; reference store %r default %r -> %r%s" % (
+                if not self.acceptable(m, got):
+                    self.res.bad(self._tag(m, got), "%s (%s) reads %r after %s; reference store %r default %r -> %r%s%s%s" % (
                         nm, m.typ, got, when, self.sim.get(m.name), self.sim.default(m.name), m.want,
+                        ("; also acceptable %r" % (m.alts,)) if m.alts else "",
+                        ("; pending local change %r" % (m.pend,)) if m.pend else "",
                         ("; assigned locally before attaching: %r" % (self.pre[m.name],)) if m.name in self.pre else ""))
                     self.dead = True
                     return
@@ -299,7 +442,6 @@ class _Run(object):
     # ---- steps
     def do_event(self, s):
         names = []
-        multi_seen = False
         infos = {}
         for name, value in s["changes"]:
             m = self.opts[name]
@@ -311,7 +453,6 @@ class _Run(object):
             self.sim.set(name, value)
             names.append(name)
         for name in names:
-            v = self.sim.get(name)
             infos[name] = {"multi_before_bare": False}
         # which multi-valued keys are followed by a bare key in this event?
         bare_after = False
@@ -336,9 +477,14 @@ class _Run(object):
         for name in names:
             m = self.opts[name]
             m.want = cm.initial_view(self.sim, name)
+            m.alts = []                 # Tor announced a new value: reads follow it from now on
             m.unsure = False
             m.origin = "event"
             m.event_info = infos[name]
+            if m.pend is not None:
+                self.res.label("event-on-pending:%s%s" % (m.pend["kind"], ":after-refused-save" if m.pend.get("refused") else ""))
+                m.pend["clobbered"] = True
+                self.pending_event_checked += 1
             v = self.sim.get(name)
             n = 0 if v is None else len(simconf.ref_view(m.typ, v)) if m.is_list else 1
             self.res.label("event:%s:%s" % (m.typ if m.is_list else "scalar", "unset" if v is None else
@@ -357,13 +503,33 @@ class _Run(object):
             return
         if nm != m.name:
             self.res.label("case-mangled-read")
-        if not m.unsure and not cm.same_view(m.typ, m.want, got):
-            tag = "name-not-matched-case-insensitively" if nm != m.name else self._tag(m, got)
-            self.res.bad(tag, "%s reads %r, expected %r" % (nm, got, m.want))
+        if not m.unsure and not self.acceptable(m, got):
+            tag = "name-not-matched-case-insensitively" if nm != m.name and m.pend is None else self._tag(m, got)
+            self.res.bad(tag, "%s reads %r, expected %r%s" % (nm, got, m.want, (" or %r" % (m.alts,)) if m.alts else ""))
             self.dead = True
 
-    def _save(self, m, want_vals, what):
-        """save(); the SETCONF must name m with want_vals.  Returns True if Tor acknowledged."""
+    @staticmethod
+    def _vals_match(m, vals, want_vals):
+        """(matches, sent in the comma-joined form)"""
+        if vals == want_vals:
+            return True, False
+        if m.typ == "Float" and len(vals) == 1 and vals[0] is not None:
+            try:
+                return float(vals[0]) == float(want_vals[0]), False
+            except (TypeError, ValueError):
+                return False, False
+        if m.typ in ("CommaList", "RouterList") and len(vals) == 1 and vals[0] is not None \
+                and simconf.split_commas(vals[0]) == want_vals:
+            return True, True
+        return False, False
+
+    def _save_all(self, accept, what):
+        """save() with everything that is pending.  Returns True if Tor acknowledged and all is well."""
+        from txtorcon import TorProtocolError
+        pend = [m for m in self.opts.values() if m.pend is not None]
+        must = [m for m in pend if not m.pend["clobbered"]]
+        if not accept:
+            self.sim.reject_next(552, "Unrecognized option: the reference Tor was told to refuse this SETCONF")
         s0 = len(self.sim.setconfs)
         try:
             w = Watch(self.cfg.save())
@@ -372,32 +538,71 @@ class _Run(object):
             self.dead = True
             return False
         self.pipe.pump()
+        self.sim.cancel_rejects()
         if self.pipe.escaped:
             self.res.bad("event-handler-raised", "%r during save (echo)" % (self.pipe.escaped[0],))
             self.dead = True
             return False
         recs = self.sim.setconfs[s0:]
-        if len(recs) != 1 or recs[0]["items"] is None:
-            self.res.bad("edit-not-saved", "%s then save(): SETCONFs %r" % (what, [r["line"] for r in recs]))
+        if len(recs) > 1 or (recs and recs[0]["items"] is None) or (must and not recs):
+            self.res.bad("edit-not-saved", "%s then save(): SETCONFs %r; pending %r" % (
+                what, [r["line"] for r in recs], [(m.name, m.pend["vals"]) for m in must]))
             self.dead = True
             return False
+        if not recs:
+            if not w.succeeded:
+                self.res.bad("empty-save-not-success", repr(w.outcome()))
+                self.dead = True
+                return False
+            for m in pend:              # all overtaken by an event and dropped: a defensible reading
+                self.res.label("pending-change-dropped-after-event")
+                m.pend = None
+            return True
         grouped, _ = cm.group_items(self.sim, recs[0]["items"])
-        vals = grouped.get(m.name)
-        ok = vals == want_vals
-        if not ok and vals is not None and m.typ == "Float" and len(vals) == 1:
-            try:
-                ok = float(vals[0]) == float(want_vals[0])
-            except (TypeError, ValueError):
-                ok = False
-        joined = False
-        if not ok and m.typ in ("CommaList", "RouterList") and vals is not None and len(vals) == 1 \
-                and vals[0] is not None and simconf.split_commas(vals[0]) == want_vals:
-            ok = joined = True
-        if not ok:
-            self.res.bad("edit-not-saved", "%s then save(): %r, expected %s=%r" % (what, recs[0]["line"], m.name, want_vals))
+        joined = {}
+        for m in pend:
+            vals = grouped.get(m.name)
+            if vals is None:
+                if not m.pend["clobbered"]:
+                    self.res.bad("edit-not-saved", "%s then save(): %r does not carry pending %s=%r" % (
+                        what, recs[0]["line"], m.name, m.pend["vals"]))
+                    self.dead = True
+                    return False
+                self.res.label("pending-change-dropped-after-event")
+                continue
+            ok, joined[m.name] = self._vals_match(m, vals, m.pend["vals"])
+            if not ok:
+                self.res.bad("edit-not-saved", "%s then save(): %r, expected %s=%r" % (what, recs[0]["line"], m.name, m.pend["vals"]))
+                self.dead = True
+                return False
+            if m.pend["clobbered"]:
+                self.res.label("pending-change-sent-after-event")
+        accepted = recs[0]["accepted"]
+        if accepted != accept:
+            self.res.bad("save-not-acknowledged", "%r -> %d" % (recs[0]["line"], recs[0]["code"]))
             self.dead = True
             return False
-        if not recs[0]["accepted"] or not w.succeeded:
+        if not accepted:
+            self.res.label("save-refused")
+            if w.succeeded or w.pending or not isinstance(w.failure.value, TorProtocolError):
+                self.res.bad("rejected-save-reported-success", "Tor answered %d, save() -> %r" % (recs[0]["code"], w.outcome()))
+                self.dead = True
+                return False
+            for m in pend:
+                if m.name in grouped:
+                    m.pend["refused"] = True
+                    m.alts.append(m.pend["view"])       # save() shows what it sent; Tor refused it; still pending
+                else:
+                    m.pend = None
+            try:
+                if must and not self.cfg.needs_save():
+                    self.res.bad("changes-lost-on-reject", what)
+                    self.dead = True
+            except Exception as e:
+                self.res.bad("needs-save-raised", repr(e))
+                self.dead = True
+            return False
+        if not w.succeeded:
             self.res.bad("save-not-acknowledged", "%r -> %d, save() -> %r" % (recs[0]["line"], recs[0]["code"], w.outcome()))
             self.dead = True
             return False
@@ -410,43 +615,62 @@ class _Run(object):
             self.res.bad("needs-save-raised", repr(e))
             self.dead = True
             return False
-        m.origin = "save"
-        if m.typ in ("CommaList", "RouterList") and len(want_vals) > 1 and not joined:
-            m.unsure = True
-            self.res.excluded.append("comma-list-view-after-per-element-save")
-        else:
-            m.want = cm.initial_view(self.sim, m.name)
+        for m in pend:
+            named = m.name in grouped
+            nvals = len(m.pend["vals"])
+            m.pend = None
+            m.alts = []
+            if not named:
+                continue
+            m.origin = "save"
+            if m.typ in ("CommaList", "RouterList") and nvals > 1 and not joined.get(m.name):
+                m.unsure = True
+                self.res.excluded.append("comma-list-view-after-per-element-save")
+            else:
+                m.unsure = False
+                m.want = cm.initial_view(self.sim, m.name)
         # anything else the SETCONF named changed the store too (C10 judges whether it should have)
         for name in recs[0]["changed"]:
-            if name != m.name and name in self.opts:
+            if name in self.opts and not self.opts[name].unsure:
                 self.opts[name].want = cm.initial_view(self.sim, name)
         if self.case.get("echo") and recs[0]["changed"]:
             self.res.label("own-save-echoed-as-event")
         return True
 
-    def do_edit_save(self, s):
+    def do_edit(self, s):
+        """Read the list, append to it (not saved yet).  Returns the origin of the value or None."""
         m = self.opts[s["o"]]
         if not m.is_list:
-            raise HarnessError("edit_save on scalar %s" % m.name)
+            raise HarnessError("list edit on scalar %s" % m.name)
         if m.unsure:
             self.res.excluded.append("edit-of-uncompared-comma-list")
-            return
+            return None
+        if m.pend is not None and m.pend["kind"] == "assign":
+            self.res.excluded.append("inplace-edit-while-assignment-pending")
+            return None
+        if m.pend is not None and m.pend["clobbered"]:
+            # the list being edited before the event and the one the view shows now are different objects
+            self.res.excluded.append("inplace-edit-after-an-event-replaced-the-edited-list")
+            return None
         nm = cm.mangle(m.name, s.get("case", 0))
         try:
             lst = getattr(self.cfg, nm)
         except Exception as e:
             self.res.bad("name-not-matched-case-insensitively" if nm != m.name else "read-raised", "%s: %r" % (nm, e))
             self.dead = True
-            return
-        if not isinstance(lst, list) or not cm.same_view(m.typ, m.want, lst):
+            return None
+        if not isinstance(lst, list) or not self.acceptable(m, lst):
             self.res.bad(self._tag(m, lst), "%s reads %r, expected %r" % (nm, lst, m.want))
             self.dead = True
-            return
+            return None
         if m.typ in ("CommaList", "RouterList") and list(lst) == [""]:
             # the ['']-shaped empty comma list (accepted above): what append() then means is not compared
             self.res.excluded.append("append-to-blank-shaped-empty-comma-list")
-            return
+            return None
         before = [str(x) for x in lst]
+        if m.pend is not None and before != m.pend["vals"]:
+            self.res.excluded.append("edit-of-a-read-that-does-not-show-the-pending-list")
+            return None
         origin = m.origin
         try:
             lst.append(s["v"])
@@ -454,44 +678,69 @@ class _Run(object):
         except Exception as e:
             self.res.bad("list-edit-raised", "%s.append(%r): %r" % (nm, s["v"], e))
             self.dead = True
-            return
+            return None
         if not flagged:
             tag = {"event": "event-list-untracked", "bootstrap": "bootstrap-list-untracked"}.get(origin, "saved-list-untracked")
             self.res.bad(tag, "%s (%s, value last set by %s): append(%r) did not make needs_save() true" % (
                 m.name, m.typ, origin, s["v"]))
             self.dead = True
-            return
-        if self._save(m, before + [str(s["v"])], "%s.append(%r)" % (nm, s["v"])):
-            self.res.label("tracked-check:%s-after-%s" % (m.typ, origin))
-            if origin == "event":
-                self.tracked_after_event += 1
-            self.check_all("saving %s" % m.name)
+            return None
+        vals = before + [str(s["v"])]
+        refused = bool(m.pend and m.pend.get("refused"))
+        m.pend = {"kind": "inplace", "vals": vals, "view": list(vals), "clobbered": False, "refused": refused}
+        m.alts.append(list(vals))
+        return origin
 
-    def do_assign_save(self, s):
+    def do_assign(self, s):
         m = self.opts[s["o"]]
         nm = cm.mangle(m.name, s.get("case", 0))
         v = s["v"]
         if m.is_list:
-            want_vals = [str(x) for x in v]
+            vals, view = [str(x) for x in v], list(v)
         else:
-            wire, _view = cm.ref_validated(m.typ, v)
-            want_vals = [wire if wire is not None else repr(float(v))]
+            wire_s, view = cm.ref_validated(m.typ, v)
+            vals = [wire_s if wire_s is not None else repr(float(v))]
         try:
             setattr(self.cfg, nm, list(v) if m.is_list else v)
         except Exception as e:
             self.res.bad("name-not-matched-case-insensitively" if nm != m.name else "assign-raised",
                          "%s = %r: %r" % (nm, v, e))
             self.dead = True
+            return False
+        m.pend = {"kind": "assign", "vals": vals, "view": view, "clobbered": False, "refused": False}
+        m.alts.append(view)
+        return True
+
+    def do_edit_save(self, s):
+        origin = self.do_edit(s)
+        if origin is None:
             return
-        m.unsure = False
-        if self._save(m, want_vals, "%s = %r" % (nm, v)):
+        m = self.opts[s["o"]]
+        if self._save_all(True, "%s.append(%r)" % (m.name, s["v"])):
+            self.res.label("tracked-check:%s-after-%s" % (m.typ, origin))
+            if origin == "event":
+                self.tracked_after_event += 1
+            self.check_all("saving %s" % m.name)
+
+    def do_assign_save(self, s):
+        if not self.do_assign(s):
+            return
+        m = self.opts[s["o"]]
+        if self._save_all(True, "%s = %r" % (m.name, s["v"])):
             self.res.label("assign-save:" + ("list" if m.is_list else "scalar"))
             self.check_all("saving %s" % m.name)
+
+    def do_save(self, s):
+        if self._save_all(bool(s.get("accept", True)), "save()") and not self.dead:
+            self.check_all("save()")
 
     def do_socks(self, s):
         from twisted.internet.protocol import Factory
         m = self.opts.get("SocksPort")
         if m is None or m.unsure:
+            return
+        if m.pend is not None or m.alts:
+            self.res.excluded.append("socks-endpoint-while-socksport-change-pending")
             return
         lines = [str(x) for x in m.want]
         if any(ln.split()[0] == "0" for ln in lines):
@@ -524,6 +773,8 @@ class _Run(object):
 def drive_view(case):
     res = Result()
     run = _Run(case, res)
+    if run.dead:
+        return res
     if run.cfg is None:
         res.bad("attach-failed" if run.attach else "bootstrap-failed", "%r" % (run.boot.outcome(),))
         return res
@@ -538,6 +789,8 @@ def drive_view(case):
             res.label("boot:scalar:unset" + ("+default" if run.sim.default(m.name) is not None else ""))
     if not case.get("defaults", True):
         res.label("no-config/defaults-support")
+    if case.get("boot_events"):
+        res.label("attach-answered-one-command-at-a-time")
     if run.attach:
         res.label("route:attach_protocol")
         if not run.pre:
@@ -545,7 +798,7 @@ def drive_view(case):
         for name, a in run.pre.items():
             m = run.opts[name]
             equal = not isinstance(m.want, str) or m.want != cm.UNSET
-            if equal:
+            if equal and m.boot_changed is None:
                 v = a["v"]
                 if m.is_list:
                     equal = [str(x) for x in (v if isinstance(v, list) else [v])] == [str(x) for x in m.want]
@@ -564,7 +817,8 @@ def drive_view(case):
     if not run.dead and run.cfg.needs_save():
         res.bad("needs-save-true-after-bootstrap", "")
         run.dead = True
-    for s in case["steps"]:
+    steps = [{"op": "event", "changes": e["changes"]} for e in run.late_boot_events] + list(case["steps"])
+    for s in steps:
         if run.dead:
             break
         op = s["op"]
@@ -572,6 +826,12 @@ def drive_view(case):
             run.do_event(s)
         elif op == "read":
             run.do_read(s)
+        elif op == "edit":
+            run.do_edit(s)
+        elif op == "assign":
+            run.do_assign(s)
+        elif op == "save":
+            run.do_save(s)
         elif op == "edit_save":
             run.do_edit_save(s)
         elif op == "assign_save":
@@ -643,6 +903,34 @@ def _fixed_cases():
                    steps=[{"op": "edit_save", "o": "Log", "v": "info stdout", "case": 0}, ev(("Nickname", ["x"])),
                           ev(("Nickname", None)), {"op": "read", "o": "Nickname", "case": 1}])
         yield dict(b, attach=[], steps=[{"op": "edit_save", "o": "Log", "v": "info stdout", "case": 1}])
+    # CONF_CHANGED while the attach is still asking; CONF_CHANGED for options with unsaved / refused local changes
+    t4 = [O("Log", "LineList", value=["notice stdout"]), O("MaxClientCircuitsPending", "Integer", value=["32"]),
+          O("AvoidDiskWrites", "Boolean", value=["0"]), O("NodeFamily", "LineList"), O("Nickname", "String", value=["n"]),
+          O("SocksPort", "PortLines", value=["9050"]), O("DNSPort", "PortLines")]
+    bev = lambda at, *ch: {"at": at, "changes": [list(c) for c in ch]}
+    rd = lambda o: {"op": "read", "o": o, "case": 0}
+    for echo in (False, True):
+        for att in (None, [], [pre("Log", 1, ["notice stdout"]), pre("SocksPort", 2, 9050)]):
+            b = dict(base, echo=echo, opts=t4, attach=att)
+            yield dict(b, boot_events=[bev(5, ("Log", ["notice stdout", "info file /tmp/i.log"]), ("MaxClientCircuitsPending", ["8"])),
+                                       bev(7, ("AvoidDiskWrites", ["1"]), ("Nickname", None))],
+                       steps=[{"op": "edit_save", "o": "Log", "v": "debug syslog", "case": 0}])
+            yield dict(b, boot_events=[bev(k, ("SocksPort", ["9050", "9150"]), ("DNSPort", ["53"])) for k in (9,)] +
+                                      [bev(11, ("DNSPort", ["5353"]))],
+                       steps=[{"op": "socks", "pick": 1, "as_int": True}, {"op": "edit_save", "o": "DNSPort", "v": "54", "case": 1}])
+            yield dict(b, boot_events=[bev(2, ("Log", None)), bev(3, ("NodeFamily", ["a,b"])), bev(12, ("Log", ["x"]))],
+                       steps=[rd("Log")])
+        b = dict(base, echo=echo, opts=t4)
+        yield dict(b, steps=[{"op": "assign", "o": "MaxClientCircuitsPending", "v": 64, "case": 0},
+                             ev(("MaxClientCircuitsPending", ["8"])), rd("MaxClientCircuitsPending"),
+                             {"op": "save", "accept": True}, rd("MaxClientCircuitsPending")])
+        yield dict(b, steps=[{"op": "edit", "o": "Log", "v": "debug file /tmp/mine.log", "case": 1},
+                             ev(("Log", ["notice stdout", "info file /tmp/theirs.log"])), rd("Log"),
+                             {"op": "save", "accept": True}, {"op": "edit_save", "o": "Log", "v": "x", "case": 0}])
+        yield dict(b, steps=[{"op": "assign", "o": "Nickname", "v": "mine", "case": 2}, {"op": "save", "accept": False},
+                             ev(("Nickname", ["theirs"])), rd("Nickname"), ev(("Nickname", None)), rd("Nickname"),
+                             {"op": "edit", "o": "NodeFamily", "v": "a,b", "case": 0}, {"op": "save", "accept": False},
+                             ev(("NodeFamily", ["c,d", "e,f"])), rd("NodeFamily"), {"op": "save", "accept": True}])
 
 
 MANIFEST = {
@@ -670,6 +958,23 @@ def run(ctx):
 
 
 MUTANTS = [
+    # CONF_CHANGED during the attach / for options with unsaved or refused local changes
+    ("events-ignored-until-attach-completes", "txtorcon/torconfig.py",
+     "        conf = parse_keywords(arg, multiline_values=False)\n",
+     "        if not self.post_bootstrap.called:\n            return\n"
+     "        conf = parse_keywords(arg, multiline_values=False)\n"),
+    ("event-ignored-for-option-with-unsaved-change", "txtorcon/torconfig.py",
+     "            real_name = self._find_real_name(k)\n            if real_name in self.parsers:\n"
+     "                if real_name in self.list_parsers:",
+     "            real_name = self._find_real_name(k)\n            if real_name in self.unsaved:\n                continue\n"
+     "            if real_name in self.parsers:\n                if real_name in self.list_parsers:"),
+    ("event-for-pending-option-updates-the-pending-value-only", "txtorcon/torconfig.py",
+     "            self.config[real_name] = v\n\n    def bootstrap",
+     "            if real_name in self.unsaved:\n                self.unsaved[real_name] = v\n"
+     "            else:\n                self.config[real_name] = v\n\n    def bootstrap"),
+    # needs fixes/C11-port-twin-query-overwrites-newer-event.diff in the tree (undoes it)
+    ("port-twin-answer-overwrites-newer-event", "txtorcon/torconfig.py",
+     "                        if self.config.get(rn) is not before:", "                        if False:"),
     # attach_protocol() route (options assigned under another spelling before attaching)
     ("port-list-stored-under-tors-spelling", "txtorcon/torconfig.py",
      "                self.config[rn] = _ListWrapper(\n                    initial, functools.partial(self.mark_unsaved, rn))",
